@@ -9,7 +9,7 @@
    *rebuilt* by an append loop (KeyShares, PskIdentities, TicketKeys) carry nil-ness
    ([option (list _)], None = nil) because the loop turns an empty non-nil slice into nil. *)
 From UV Require Export Base.Common.
-From Coq Require Export String.
+From Coq Require Import String.
 Open Scope N_scope.
 
 Definition slice (A : Type) := option (list A).
